@@ -196,6 +196,40 @@ theorem gen_deadline_attached :
     Gen.Upstream.dns53_dial_with_ctx = true ∧ Gen.Upstream.dns53_deadline_before_io = true ∧
     Gen.Upstream.doh_request_with_ctx = true := by decide
 
+/-- **C03 (recovery after connection-level hangs)**: with an unbounded pool, whatever connection
+hangs came before, every request issued while the upstream is healthy is answered. -/
+theorem recovery_unbounded_pool (hung : Nat) (hs : List Bool) :
+    ∀ i : Nat, hs[i]? = some true → ((Pool.run ⟨none, hung⟩ hs).1)[i]? = some true := by
+  induction hs generalizing hung with
+  | nil => intro i h; simp at h
+  | cons h hs ih =>
+    intro i hi
+    cases h with
+    | true =>
+      cases i with
+      | zero => simp [Pool.run, Pool.request, Pool.canDial]
+      | succ k =>
+        simp only [List.getElem?_cons_succ] at hi
+        simpa [Pool.run, Pool.request, Pool.canDial] using ih hung k hi
+    | false =>
+      cases i with
+      | zero => simp at hi
+      | succ k =>
+        simp only [List.getElem?_cons_succ] at hi
+        simpa [Pool.run, Pool.request, Pool.canDial] using ih (hung + 1) k hi
+
+/-- why the bound matters: with one connection per host and no handshake timeout, a single hung
+dial makes every later request fail although the upstream is healthy again -/
+theorem bounded_pool_wedges :
+    (Pool.run ⟨some 1, 0⟩ [false, true, true, true]).1 = [false, false, false, false] := by decide
+
+/-- tie to the source (regenerated from resolver/endpoint/transport_h2.go): the DoH transport sets
+no per-host connection limit, so `recovery_unbounded_pool` is the applicable statement (there is
+no handshake timeout either: a limit would turn one hung dial into a permanent outage). -/
+theorem gen_pool_unbounded : Gen.Upstream.doh_conn_limits = [] := by decide
+
+example : (Pool.run ⟨none, 0⟩ [false, true, false, true]).1 = [false, true, false, true] := by decide
+
 /-- non-vacuity: an arrival sequence with a stale answer of a previous query, a runt and then the
 answer; and one where the answer comes too late. -/
 example : dns53Loop 7 300 [⟨10, [0, 9, 1]⟩, ⟨12, [0]⟩, ⟨40, [0, 7, 1, 2]⟩] = .answer 40 [0, 7, 1, 2] := by decide
